@@ -119,9 +119,21 @@ class Unsupported(Exception):
     pass
 
 
+def flatten_items(items):
+    """a group without flags is just a sub-sequence: splice it (sequence is associative, so
+    `paths` is unchanged), so that every sequence is right-nested in the generated term"""
+    out = []
+    for op, av in items:
+        if op is sre_c.SUBPATTERN and not av[1] and not av[2]:
+            out.extend(flatten_items(av[3]))
+        else:
+            out.append((op, av))
+    return out
+
+
 def re_to_lean(items) -> str:
     """sre parse tree (a sequence) -> Lean `Re` term"""
-    parts = [node_to_lean(op, av) for op, av in items]
+    parts = [node_to_lean(op, av) for op, av in flatten_items(items)]
     return seq_lean(parts)
 
 
